@@ -125,3 +125,37 @@ Theorem impl_done_quiescent_v0_refuted :
     quiescent s0 /\ fst (ibuild_v0 rules env mixF (fun _ => [RReq; RSingle; RFollow]) (fun _ => true) 200 200 s0 root []) = RDone s /\ ~ quiescent s.
 Proof. exact done_quiescent_v0_refuted_ex. Qed.
 Print Assumptions impl_done_quiescent_v0_refuted.
+
+(* ---------- P19b: the VALUES of the small-step engine, for every schedule ---------- *)
+From LLB Require Import Engine.SpecInv1 Engine.ImplVal6 Engine.ImplVal7.
+
+(* Stage 1.  An engine that has never built anything ([fresh]: quiescent, no database, no stored result - e.g. init_istate:
+   impl_fresh_init), a rule set that is ranked in the sense of C01 (wf_rank: every key a rule mentions - requests, single-use,
+   must-follow, both branch lists, discovered - has smaller rank), a task that calls request() in start (In RReq (ord k): the call order
+   `ord=` of the scenario language is a permutation of r/s/f), any env, task function, completion policy and schedule: if the build
+   returns a value and no assert failed, the value stored for the requested key is its clean value Spec.cv, the requested key is Complete,
+   and so is the stored value of EVERY key that is Complete. *)
+Theorem impl_first_build_values : forall rules env ord F rank syncp,
+  wf_rank rules rank -> (forall k, In RReq (ord k)) ->
+  forall fuel pfuel cfuel s0 root sched sf m, fresh s0 ->
+  ibuild rules env F ord syncp fuel pfuel s0 root sched = (RDone sf, m) -> is_fault sf = None ->
+  ((rank root < cfuel)%nat -> kind_of sf root = KComplete /\ res_value (res_of sf root) = cv rules env F cfuel root) /\
+  forall k, kind_of sf k = KComplete -> (rank k < cfuel)%nat -> res_value (res_of sf k) = cv rules env F cfuel k.
+Proof. exact first_build_values. Qed.
+Print Assumptions impl_first_build_values.
+
+Theorem impl_fresh_init : fresh init_istate.
+Proof. exact fresh_init. Qed.
+Print Assumptions impl_fresh_init.
+
+(* Stage 2.  Two first builds of the same key under any two schedules (completion policies, completion orders, fuels): equal values for
+   the requested key and for every key both completed. *)
+Theorem impl_values_schedule_independent : forall rules env ord F rank,
+  wf_rank rules rank -> (forall k, In RReq (ord k)) ->
+  forall syncp1 syncp2 fuel1 pfuel1 fuel2 pfuel2 s0 root sched1 sched2 sf1 m1 sf2 m2, fresh s0 ->
+  ibuild rules env F ord syncp1 fuel1 pfuel1 s0 root sched1 = (RDone sf1, m1) -> is_fault sf1 = None ->
+  ibuild rules env F ord syncp2 fuel2 pfuel2 s0 root sched2 = (RDone sf2, m2) -> is_fault sf2 = None ->
+  res_value (res_of sf1 root) = res_value (res_of sf2 root) /\
+  forall k, kind_of sf1 k = KComplete -> kind_of sf2 k = KComplete -> res_value (res_of sf1 k) = res_value (res_of sf2 k).
+Proof. exact values_schedule_independent. Qed.
+Print Assumptions impl_values_schedule_independent.
